@@ -18,14 +18,23 @@ PROP = dict(
          "the flag-combination variants synthesised from it (bit flip + repair until the real decoder accepts again; BlockInfo "
          "crafted for all 16 flag combinations) x exhaustive single-position damage (ref removed/pruned/library/duplicated at "
          "every position, truncation and flip at every bit, flip with each ref removed); processQueryAnswer/decodeLength with "
-         "declared lengths real-4..real+8 in len==cap buffers. "
+         "declared lengths real-4..real+8 in len==cap buffers; allocation-class lines (tlb.alloc.*: VM stacks with every "
+         "relation between the announced depth and the chain, random/comb BinTrees, snakes, deep inputs to 16000 levels) "
+         "compared with the allocation models; value oracles with hand-computed expectations (go.abi.stackval, go.tlb.kat); "
+         "package tl built for GOARCH=386 on vector counts around 2^31 (go.tl.int32). "
          "non-trivial = distinct (type, malformed input) for explicit lines, distinct (type, stream, seed) batch for the "
          "seeded TL-B streams (a batch line stands for up to 50 inputs regenerated from its seed)",
     trusted_base=[
         "hand models lean/TongoModel/TlDecode.lean (tl/decoder.go, generated UnmarshalTL bodies, liteclient/client.go "
         "decodeLength/processQueryAnswer, liteclient/decoder.go), Helpers08.lean (index helpers), TlbRead.lean (cell reading "
-        "primitives, tlb/hashmap.go labels and walk, countLeafs, SnakeData, BinTree, VM stack list) tied to the code by "
-        "line-by-line correspondence on every run",
+        "primitives, tlb/hashmap.go labels and walk, countLeafs, SnakeData, BinTree), TlbAlloc.lean (allocation accounting "
+        "of the VM stack list, BinTree, SnakeData) tied to the code on every run: TlDecode/Helpers08/TlbRead customs by "
+        "exact comparison of outcomes (tld.*, h.*, tlb.label/countleafs/snake/bintree/hashmap), TlbAlloc by tlb.alloc.stack/"
+        "bintree/snake/deep: the same cells decoded by the real decoder and by stackFixed/binFixed/snake — number of values "
+        "or the error compared exactly, the allocation compared as a CLASS (model: elements <= k per cell; Go: "
+        "runtime.MemStats.TotalAlloc <= 64 KiB + 4/1/2 KiB per cell; each of the three repaired quadratic decoders, "
+        "reverted, flips the class on inputs from 50 cells). TlbRead.stackList (the step count of "
+        "vmStackList_total_by_construction) has NO line of its own: its control flow is the one of TlbAlloc.stackCopy",
         "agent tlb's model of the reflection decoder lean/TongoModel/Tlb/{Ty,Basic,Prims,Dec}.lean and translator X1 "
         "(TongoGen/TlbTypes.lean), tied to the code by property C03's correspondence; lean/TongoModel/Tlb/DecTotal.lean "
         "(weights, ranks, productivity check, fuel bound) is definitions only",
@@ -36,7 +45,9 @@ PROP = dict(
         "kernel-checked `show_<Name>` and by the model echoing the printed form of what it parsed (tld.consts)",
         "agent bits' bridge lean/TongoProofs/Lemmas/BitsBridgeRd.lean (rd_readBit, rd_readUint(_full), rd_readBits(_full), "
         "rd_skip(_full), rd_readUnary, rd_minBits): the ideal-level reader Tlb.Rd of TlbRead.lean refines C06's byte-level "
-        "model of the repaired boc.BitString (negative width = ErrNegativeBitLen first, then > 64, then availability)",
+        "model of the repaired boc.BitString (negative width = ErrNegativeBitLen first, then > 64, then availability); the "
+        "rd_*_full lemmas are conditional on that behaviour of TlbRead.lean, the condition is discharged in "
+        "C08.tlb_prims_refine_bitstring (unconditional)",
         "runtime.MemStats.TotalAlloc and wall-clock deadlines as the measure of allocation and time on the Go side",
         "in-process ADNL lite server (copied from agent net's harness) used to drive liteapi.Client.GetTransactions",
     ],
@@ -46,8 +57,10 @@ PROP = dict(
         "model steps count decoder calls, loop iterations, read calls and bytes copied",
         "element decoders (hashmap values/keys/extras, top-of-stack values, Maybe/Either/Ref payloads) are parameters of the "
         "TL-B theorems, assumed not to panic",
-        "64-bit int: int(uint32) from the wire is not negative (on a 32-bit platform a TL vector count >= 2^31 would skip "
-        "the loop and a byte-string length >= 2^31 would reach make with a negative size)",
+        "width of int: the TL model carries the one conversion that matters (decodeVector's count, Cfg.countInt32; the "
+        "repaired code keeps it unsigned); byte-string lengths are at most 2^24-1 in any int; liteclient does not build "
+        "for 32-bit targets, package tl does and is probed there by go.tl.int32 (cross-compiled, skipped with a note where "
+        "no 386 toolchain/kernel support exists)",
         "reflect panics that depend on the Go type alone and not on the input (FieldByName(\"SumType\").SetString on a "
         "non-string field, unexported fields) are outside the TL model (`Ty` is the shape the decoder sees): every "
         "alternative of every shipped sum type is decoded from an accepted encoding on every run instead",
@@ -108,9 +121,13 @@ PROP = dict(
         "THEOREMS for all inputs (Lean 4, no sorry, axioms propext/Classical.choice/Quot.sound): "
         "(TL) tl_decode_total: for EVERY type descriptor (generic kinds, generated structs with mode-conditional fields, sum "
         "types, pointer fields, unsupported kinds) and every byte string the repaired decoder returns a value or an error — "
-        "the model carries the byte-level partial operations of the Go code (binary.LittleEndian.Uint32/Uint64 on the "
-        "buffer io.ReadFull returned, chunk[:k] in readN; tl_partial_ops_live: they do panic out of range) and the proof "
-        "discharges them; panics of reflect that depend on the Go type only are NOT in the model (assumptions); "
+        "the model carries the partial operations of tl/decoder.go that can actually fire (chunk[:k] in readN, "
+        "reflect.MakeSlice with a signed capacity; each cited by file:line in the model header; tl_partial_ops_live: they "
+        "do panic out of range) and the proof discharges them — two obligations in all: the decoder has few partial "
+        "operations, binary.LittleEndian.Uint32 on its constant-length buffers is not one (the round-4 modelling of it was "
+        "artificial and is withdrawn); tl_decode_int32_count_panics / tl_decode_int32_only: the code before 730d89f "
+        "panics on a count >= 2^31 where int has 32 bits (replayed with GOARCH=386, repaired); panics of reflect that "
+        "depend on the Go type only are NOT in the model (assumptions); "
         "tl_decode_alloc / tl_decode_alloc_ok / tl_decode_steps: allocation and steps linear in the input with constants "
         "computed from the descriptor; INSTANTIATED on the regenerated table (TongoGen.TldTypes: 73 descriptors, 29 request "
         "tags; wf_<Name>, show_<Name>, all_wf) by liteapi_decode_bounded / liteapi_type_decode_bounded / "
@@ -119,14 +136,19 @@ PROP = dict(
         "(tl_alloc_orig_bytes_violates: fe ff ff ff requests 16 MiB; tl_alloc_orig_vector_violates: ff ff ff ff requests "
         "2^32-1 elements; tl_decode_orig_panics_on_pointer_field), each replayed on Go. "
         "(helpers) helpers_total + processQueryAnswer_length: decodeLength, processQueryAnswer, respTag, "
-        "LiteapiRequestDecoder never panic and the answer handed out lies inside the payload; index_helpers_total, "
-        "getTransactions_total, firstRoot_total, vmCellSlice_decoded_total, tuple_total with the panicking originals as "
-        "witness theorems (getTransactions_orig_panics, firstRoot_orig_panics, tuple_orig_nil_panics, "
+        "LiteapiRequestDecoder never panic and the answer handed out lies inside the payload (live slice panics in the "
+        "model); on the GUARD ABSTRACTION of Helpers08.lean (lengths as Nat, content `i < n` before `a[i]`): "
+        "index_helpers_total (hypothesis nKeys <= nValues, read off Hashmap.mapInner, not proved; "
+        "accountFromProof_needs_parallel_slices), getTransactions_total, firstRoot_total, vmCellSlice_decoded_total, "
+        "tuple_total with the panicking originals as witness theorems (getTransactions_orig_panics, firstRoot_orig_panics, tuple_orig_nil_panics, "
         "vmCellSlice_zero_panics). "
-        "(TL-B, modelled customs; TlbRead.lean follows the repaired readers: tlb_prims_negative_width_is_error) "
+        "(TL-B, modelled customs; TlbRead.lean follows the repaired readers: tlb_prims_negative_width_is_error, "
+        "tlb_prims_refine_bitstring: readUint/readBits/skip refine C06's byte-level model for every width) "
         "hashmap_total (the live panic: boc.NewCellWithBits(key) beyond 1023 bits, excluded by keySize <= 1023 and the "
         "capacity of the key prefix), snake_steps (+ snake_orig_quadratic: the decoder as "
-        "found copies b*d(d+1)/2 bits on a chain); tlb_custom_alloc: the repaired VM stack list decoder allocates <= 2 "
+        "found copies b*d(d+1)/2 bits on a chain; the no-panic conjunct of snake_steps is true by construction, its content is "
+        "the equality of the two decoders and the copy count); tlb_custom_alloc (about the models of TlbAlloc.lean, tied to "
+        "Go by the tlb.alloc.* class comparison, see trusted_base): the repaired VM stack list decoder allocates <= 2 "
         "values per cell, BinTree <= 1 leaf slot per cell, SnakeData copies <= the data it returns; the code as found is "
         "quadratic (vmstack_orig_quadratic, bintree_orig_quadratic: d(d+1)/2 copies on a chain / comb of depth d, both "
         "repaired in this round) and the pre-allocation `make(.., 0, depth)` from the depth field violates any bound "
@@ -142,8 +164,12 @@ PROP = dict(
         "(the shape of tlb.HashMapAugExtraList, the known fatal stack overflow) is out of fuel for every fuel and is "
         "rejected by the check; tlb_prim_decoders_total: all 19 hand-written decoders modelled as Prim are total and their "
         "internal loops have enough fuel; C08Gen: generated_env_productive (re-decided on every run on the regenerated "
-        "environment of 501 named types; ranks <= 4, depth 26) and tlb_decode_total_generated (every descriptor over it, "
-        "in particular the 711 regenerated ones). "
+        "environment; ranks and depth bounded by generated_consts) and tlb_decode_total_generated (every descriptor over "
+        "it, in particular every regenerated desc_* of TongoGen.TlbTypes). "
+        "VALUES (oracles with hand-computed expectations, not totality): go.abi.stackval — six get-method result decoders "
+        "(seqno, get_wallet_data, get_nft_data, get_jetton_data, get_wallet_params, get_plugin_list) on stacks written bit "
+        "by bit from block.tlb with the last result on top; go.tlb.kat — DNSText chunks, Text, BinTree leaf order, VmStack "
+        "order; h.vmstack compares which stack position every struct field is filled from. "
         "ORACLES ONLY (no theorem): the hand-written decoders that are opaque in the descriptors (listed in `partial`), the "
         "reflect glue on the Go side, the abi message decoders and get-method result decoders (VmStack / VmStackValue / VmStkTuple.Unmarshal reflection "
         "glue), the proof decoders: ~100 (quick) / ~3000 (thorough) damaged trees per type, "
